@@ -138,3 +138,45 @@ def rule_direction(ctx: Ctx) -> List[Ob]:
             obs.append(ob("DIRECTION", "line search starts from the same iterate and gradient", mm.f, c, ok3,
                           f"x0 <- {short(b.get('x0'))}, g0 <- {short(g0)}", construct="line_search(x0=x, g0=grad)"))
     return obs
+
+
+@rule("REBUILD", min_instances=2)
+def rule_rebuild(ctx: Ctx) -> List[Ob]:
+    """before the first iteration the limited-memory matrices are those of the history the run starts with: every path from
+    the entry to the main loop either seeds an empty history with the start point (fresh run) or passes
+    `mats = update_lbfgs_matrices(copy of x, jac, X, G, .., mats, ..)` on the restored one (restart) -- otherwise a restarted
+    run iterates with an identity model while reporting the restored pairs"""
+    mm = mainmodel(ctx)
+    cfg = mm.cfg
+    ulm = ctx.repo.func("bfgsmats.update_lbfgs_matrices")
+    fin = mm.result_of_return(mm.final_return)
+    gn = src(kw(fin, "jac"))
+    obs: List[Ob] = []
+    head = [n for n in cfg.nodes if n.kind == "loophead" and n.owner is mm.loop][0]
+    pre = cfg.reachable(cfg.entry, follow_exc=False, avoid=lambda m: m is head)
+    offers, seeds = [], []
+    for n in pre:
+        if cfg.in_loop(n, mm.loop):
+            continue
+        for c in node_calls(n):
+            nm = (dotted(c.func) or "").split(".")[-1]
+            if nm == "update_lbfgs_matrices":
+                b = bind_args(c, ulm.node)
+                okb = src(uncopy(b.get("xk"))) == mm.x and src(b.get("gk")) == gn and src(b.get("X")) == mm.X and src(b.get("G")) == mm.G \
+                    and src(b.get("mats")) == mm.mats
+                fresh = b.get("xk") is not None and src(b["xk"]) != mm.x
+                tgt = n.ast.targets[0] if isinstance(n.ast, ast.Assign) else None
+                okt = tgt is not None and src(tgt) == mm.mats
+                offers.append(n)
+                obs.append(ob("REBUILD", "the restored history is turned into matrices before the first iteration", mm.f, c, okb and fresh and okt,
+                              f"xk <- {short(b.get('xk'))} (private copy: {fresh}), gk <- {short(b.get('gk'))}, X/G/mats <- "
+                              f"{short(b.get('X'))}/{short(b.get('G'))}/{short(b.get('mats'))}; result bound to {short(tgt) if tgt is not None else 'nothing'}",
+                              construct=f"pre-loop {short(c, 60)}"))
+            if nm == "append" and isinstance(c.func, ast.Attribute) and src(c.func.value) == mm.X:
+                seeds.append(n)
+    skip = cfg.exists_path_avoiding(cfg.entry, head, lambda m: m in offers or m in seeds)
+    obs.append(ob("REBUILD", "no run enters the main loop with matrices that ignore its history", mm.f, mm.loop, not skip and bool(offers),
+                  f"{len(offers)} pre-loop update(s), {len(seeds)} seed insertion(s); every path to the loop passes one of them: {not skip}" +
+                  ("" if not skip and offers else ": a restarted run can start iterating with the matrices of an empty memory"),
+                  construct="entry -> (seed | update_lbfgs_matrices) -> main loop"))
+    return obs
